@@ -185,6 +185,7 @@ const SUBJ: [&str; 6] = ["Highest", "Lowest", "HighestLowestDelta", "HighestInde
 
 fn main() {
 	refmodel::set_eps(eps());
+	refmodel::set_floor(ValueType::MIN_POSITIVE as f64);
 	let mut h = H::start("C04");
 	let thorough = h.thorough();
 	let maxn = (PeriodType::MAX as usize - 1).min(254);
